@@ -140,7 +140,7 @@ def cases(tier, seed):
         for rep in range(reps):
             for sub in subsets:
                 out.append({"id": "tie-%d" % k, "kind": "tie", "ncand": ncand, "subset": sub, "new_name": [None, "tied", "r"][k % 3],
-                            "extra": int(rng.integers(0, 3)), "second": bool(k % 2), "seed": [seed, "tie", k]})
+                            "extra": int(rng.integers(0, 3)), "second": bool(k % 2), "seed": [seed, "tie", k], "pad": bool((k // 2) % 2)})
                 k += 1
     for i in range(n // 3):
         out.append({"id": "rt-%d" % i, "kind": "roundtrip", "shape": SHAPES[i % len(SHAPES)], "seed": [seed, "rt", i]})
@@ -448,7 +448,11 @@ def _run_tie(case):
     st_members = []
     for j in range(nc):
         n_site = extras[j % len(extras)] if j % 2 == 0 else 1.59
-        members.append(Sphere(n=n_site, r=cand[j], center=[float(j), 0.5, 10.0 + j]))
+        cen = [float(j), 0.5, 10.0 + j]
+        if case.get("pad"):
+            # every centre coordinate is a (distinct) parameter too: tie candidates then sit 4-5 positions apart, at indices >= 8
+            cen = [Uniform(j + 0.001 * k, j + 1.0 + 0.002 * k) for k in range(3)]
+        members.append(Sphere(n=n_site, r=cand[j], center=cen))
     model = AlphaModel(Spheres(members, warn=False), alpha=Uniform(0.5, 1.0), noise_sd=0.1, medium_index=1.33, illum_wavelen=0.66, illum_polarization=(1, 0), theory=Mie)
     names0 = list(model._parameter_names)
     params0 = list(model._parameters)
@@ -520,6 +524,12 @@ def _run_tie(case):
         else:
             if built.scatterers[j].n != 1.59:
                 flags["fixed_value_untouched"] = False
+        if case.get("pad"):
+            for k in range(3):
+                cn = "%d:center.%d" % (j, k)
+                if cn not in names2 or built.scatterers[j].center[k] != values[names2.index(cn)]:
+                    flags["untied_parameter_still_in_place"] = False
+                    witness.append("sphere %d centre[%d] %r expected value of %s" % (j, k, built.scatterers[j].center[k], cn))
     # dict form agrees
     bd = model.scatterer_from_parameters({nm: v for nm, v in zip(names2, values)})
     from vf.monitors import digest
